@@ -35,6 +35,7 @@ const nUsers = 3
 type mUser struct {
 	Exists bool   `json:"exists"`
 	Pass   string `json:"pass"`
+	Prev   string `json:"prev_pass,omitempty"` // the password before the last change
 	Admin  bool   `json:"admin"`
 	Pull   string `json:"pull"`
 	Push   string `json:"push"`
